@@ -469,6 +469,10 @@ func genSite(t *rapid.T) Site {
 	}
 	if kind >= 2 {
 		s.Internal = []string{rapid.SampledFrom(scopeSpell["/internal"]).Draw(t, "int0")}
+		if rapid.IntRange(0, 2).Draw(t, "intpriv") == 0 {
+			// an internal scope below a directory without index page, so that listings and archives of its parent exist
+			s.Internal = append(s.Internal, rapid.SampledFrom(scopeSpell["/noindex/priv"]).Draw(t, "int0b"))
+		}
 		if kind == 3 && rapid.Bool().Draw(t, "int2") {
 			s.Internal = append(s.Internal, rapid.SampledFrom(scopeSpell["/secret"]).Draw(t, "int1"))
 		}
@@ -491,13 +495,14 @@ func genSite(t *rapid.T) Site {
 	return s
 }
 
-// ancestorOfScope: is dir a strict ancestor of some protected scope of the site?
+// ancestorOfScope: is dir a strict ancestor of some basicauth scope of the site?
+// (internal paths are hidden from archives; only basicauth scopes are affected
+// by the listed finding)
 func ancestorOfScope(s Site, dir string) bool {
 	var scopes []string
 	for _, a := range s.Auth {
 		scopes = append(scopes, a.Resources...)
 	}
-	scopes = append(scopes, s.Internal...)
 	d := strings.ToLower(strings.TrimSuffix(dir, "/")) + "/"
 	for _, sc := range scopes {
 		c := strings.ToLower(path.Clean(unquote(sc)))
